@@ -732,8 +732,11 @@ class FuncAtan2(ValueFunc):
         if args.isNull("x"):
             return NULL
         return ValueDecimal(
-            math.atan2(
-                args.getNumerical("y").value, args.getNumerical("x").value
+            safe_math(
+                math.atan2,
+                pos,
+                args.getNumerical("y").value,
+                args.getNumerical("x").value,
             )
         )
 
